@@ -135,6 +135,10 @@ def run_replay_script(path, timeout=600, env=None):
     e = dict(os.environ)
     e.update(env or {})
     e['PYTHONPATH'] = os.environ.get('VERIF_REPO', '/repo')
+    try:        # a script that does not even compile must not be mistaken for 'reproduced' (python exits 1 on SyntaxError)
+        compile(open(path).read(), path, 'exec')
+    except SyntaxError as ex:
+        return 3, f'replay script does not compile: {ex}'
     p = subprocess.run([PY, path], capture_output=True, text=True, timeout=timeout, env=e)
     return p.returncode, (p.stdout + p.stderr)[-4000:]
 
